@@ -2062,10 +2062,15 @@ def check_C13(tier, seed):
     for e in entries:
         ins = all_inputs(e.g, L if len(e.g.ts) <= 3 else L - 1, 300 if tier == 'quick' else 2000)
         sents = gengram.sentences(e.g, rng, 5 if tier == 'quick' else 25, max_len=40)
+        # blanks and newlines between the terms (the overloads without an options argument must mean the default options)
+        wsin = [x for x in ws_inputs(e.g, 3, [32, 10], 400) if 32 in x or 10 in x][::7][:40 if tier == 'quick' else 200]
         cats = (1, 2, 3, 4, 5) if e.ctx else (0, 1, 2, 3, 4, 5)
         for c in cats:
             pipeline.add_jobs(e, ins if c in (1, 2) else ins[::3], verbose=(c == 1), ctx=c, tag='c%d_' % c)
             pipeline.add_jobs(e, sents, verbose=False, ctx=c, tag='s%d_' % c)
+            pipeline.add_jobs(e, wsin, verbose=False, ctx=c, tag='w%d_' % c)
+            if c in (1, 2):
+                pipeline.add_jobs(e, wsin[::2], verbose=False, ctx=c, stream=1, tag='wn%d_' % c)       # context_parse(ctx, buffer)
     res, work = prun.run(entries, 'C13', design_L=None, do_product=False, tlc_procs=4 if tier == 'quick' else 8, tlc_workers=4 if tier == 'quick' else 2)
     domain = {e.gid for e in entries}
     judge_traces(out, entries, res, {'functor', 'context-mutations', 'tree', 'verdict', 'extra:ccall', 'extra:call', 'threw'}, domain)
@@ -2104,11 +2109,15 @@ def check_C13(tier, seed):
 # ======================================================================================= C14
 def values_check(entries, workname, tlc_procs=4):
     import traces as tl
-    work = vlib.scratch(workname)
     items = []
     for e in entries:
         for t in e.traces:
             items.append(tl.values_item(t))
+    return values_items_check(items, workname, tlc_procs)
+
+
+def values_items_check(items, workname, tlc_procs=4):
+    work = vlib.scratch(workname)
     tasks = []
     for ci, part in enumerate(pipeline.chunks(items, tlc_procs)):
         ip = os.path.join(work, 'val%d.ndjson' % ci)
@@ -2170,6 +2179,26 @@ def check_C14(tier, seed):
         v['summary']['class'] = 'value lifecycle: ' + d['why'][0]
         v['summary']['real_event'] = None
         out.violations.append(v)
+    # the FIXED-capacity value stack (cstring_buffer + trivially destructible values): same lifecycle automaton
+    fsrc = os.path.join(vlib.HARNESS, 'fixedvec.cpp')
+    fexe = os.path.join(work, 'fixedvec')
+    fr = subprocess.run(['g++', '-std=c++17', '-O1', '-I' + os.path.join(vlib.REPO, 'include'), fsrc, '-o', fexe], capture_output=True, text=True, timeout=600)
+    nfixed = 0
+    if fr.returncode != 0:
+        import re as _re
+        m = _re.search(r'ctpg\.hpp:(\d+):\d+: error: ([^\n]*)', fr.stderr)
+        out.violations.append({'summary': {'class': 'a parser over trivially destructible value types (fixed-capacity value stack) does not compile', 'where': m.group(0)[:200] if m else fr.stderr[:300]}, 'kind': 'moveonly'})
+    else:
+        fout = os.path.join(work, 'fixedvec.ndjson')
+        fr2 = subprocess.run([fexe, fout], capture_output=True, text=True, timeout=120)
+        fitems = vlib.read_ndjson_lenient(fout)
+        if fr2.returncode != 0 or not fitems:
+            out.violations.append({'summary': {'class': 'the fixed-capacity value stack run died', 'exit': fr2.returncode, 'stderr': fr2.stderr[-300:]}, 'kind': 'moveonly'})
+        else:
+            fprobs, nfixed, st_f, tr_f, _ = values_items_check(fitems, 'C14fv', tlc_procs=2)
+            st += st_f; tr += tr_f
+            for d in fprobs[:3]:
+                out.violations.append({'summary': {'class': 'value lifecycle on the fixed-capacity value stack: ' + d['why'][0], 'run(buffer:input)': d['id'], 'detail': d['why']}, 'kind': 'moveonly'})
     # move-only value types (term values and functor results) must compile and work
     src = os.path.join(vlib.HARNESS, 'moveonly.cpp')
     exe = os.path.join(work, 'moveonly')
@@ -2188,7 +2217,7 @@ def check_C14(tier, seed):
         'grammars': len(entries), 'lifecycle_traces_validated': ntr, 'lifecycle_events_validated': nev, 'lifecycle_event_kinds': dict(kinds),
         'paths': {'accepted': sum(1 for e in entries for t in e.traces if t['ok']), 'failed': sum(1 for e in entries for t in e.traces if not t['ok']),
                   'with_recovery': sum(1 for e in entries if e.g.has_error() for t in e.traces)},
-        'move_only_translation_unit': 'harness/moveonly.cpp', 'bounds': {'L_all_inputs_incl_unknown_byte': L},
+        'move_only_translation_unit': 'harness/moveonly.cpp', 'fixed_capacity_value_stack_runs_validated': nfixed, 'bounds': {'L_all_inputs_incl_unknown_byte': L},
         'samples': [{'trace': d['id'], 'events': [ev for ev in by_id[d['id']][1]['events'] if ev[0].startswith('v_')][:10]} for d in [{'id': entries[0].traces[5]['id']}]], 'exhaustive': False})
     out.coverage['states'] += st
     out.coverage['transitions'] += tr
